@@ -8,8 +8,19 @@ octets as in Driver/Trxd.lean; a message list is a sequence of `T <TxMsg>` / `R 
   dump.cutscan <skip|-> <count|-> <octets>   -> ok <a_0> ... <a_len>: for every cut offset c the answer of
         parse_all(skip, count) on the first c octets: `F` (False) or the number n of messages returned, with
         `!` appended if they are not the first n messages returned from the uncut file
+  dump.hist <mode> <octets> <op> ...       -> ok <a_1> ; ... ; <a_n> | <file octets>
+        a history on ONE DATADumpFile object that starts on the given content; mode (b = io.BytesIO, w = a
+        file object opened "w+b", p = a path, the class opens it "a+b") only tells the harness how to make
+        the object - the model has one kind of file.  Operations:
+          A <T|R msg>            append_msg            -> D | E <exception>
+          L <n> <n msgs>         append_all            -> D | E <exception>
+          M <idx>                parse_msg             -> m None | m False | m <msg>
+          P <skip|-> <count|->   parse_all             -> a False | a <n> <msgs>
+          X <n>                  crash: file cut at octet n and opened again -> X
+        the file octets are `?` if an exception left a read method (the run stops there)
 -/
 import OsmoVerif.Model.TrxdDump
+import OsmoVerif.Model.TrxdDumpHist
 import OsmoVerif.Driver.Trxd
 namespace OsmoVerif.Driver.TrxdDump
 open OsmoVerif.Trxd OsmoVerif.TrxdDump OsmoVerif.Driver OsmoVerif.Driver.Trxd
@@ -61,6 +72,62 @@ def cutscan (data : List Nat) (skip count : Option Nat) : Except Exc String := d
   let cells ← (List.range (data.length + 1)).mapM cell
   pure (" ".intercalate cells)
 
+def takeMsg? : List String → Option (Msg × List String)
+  | "T" :: a :: b :: c :: d :: e :: rest => do
+    let m ← tx? [a, b, c, d, e]
+    pure (.tx m, rest)
+  | "R" :: a :: b :: c :: d :: e :: f :: g :: h :: i :: j :: k :: rest => do
+    let m ← rx? [a, b, c, d, e, f, g, h, i, j, k]
+    pure (.rx m, rest)
+  | _ => none
+
+def takeMsgs? : Nat → List String → Option (List Msg × List String)
+  | 0, r => some ([], r)
+  | n + 1, r => do
+    let (m, r) ← takeMsg? r
+    let (ms, r) ← takeMsgs? n r
+    pure (m :: ms, r)
+
+/-- the operations of a history (`fuel` = number of tokens) -/
+def ops? : Nat → List String → Option (List Op)
+  | _, [] => some []
+  | 0, _ => none
+  | fuel + 1, "A" :: r => do
+    let (m, r) ← takeMsg? r
+    let o ← ops? fuel r
+    pure (.appendMsg m :: o)
+  | fuel + 1, "L" :: n :: r => do
+    let n ← parseNat? n
+    let (ms, r) ← takeMsgs? n r
+    let o ← ops? fuel r
+    pure (.appendAll ms :: o)
+  | fuel + 1, "M" :: i :: r => do
+    let i ← parseNat? i
+    let o ← ops? fuel r
+    pure (.parseMsg i :: o)
+  | fuel + 1, "P" :: s :: c :: r => do
+    let s ← optNat? s; let c ← optNat? c
+    let o ← ops? fuel r
+    pure (.parseAll s c :: o)
+  | fuel + 1, "X" :: n :: r => do
+    let n ← parseNat? n
+    let o ← ops? fuel r
+    pure (.truncate n :: o)
+  | _, _ => none
+
+def showAns : Ans → String
+  | .done => "D"
+  | .raised e => "E " ++ e.pyName
+  | .res r => "m " ++ showRes r
+  | .all r => "a " ++ showAll r
+  | .cut => "X"
+
+def showHist (r : List Ans × Option File) : String :=
+  " ; ".intercalate (r.1.map showAns) ++ " | " ++
+    (match r.2 with
+     | some f => showBytes f.data
+     | none => "?")
+
 /-- `dump.*` verbs -/
 def handle : List String → Option String
   | "dump.write" :: ms => do
@@ -72,6 +139,11 @@ def handle : List String → Option String
   | ["dump.parsemsg", idx, b] => do
     let idx ← parseNat? idx; let b ← bytes? b
     pure (outcome (fun r => showRes r.1) (parseMsg ⟨b, 0⟩ idx))
+  | "dump.hist" :: mode :: b :: ops => do
+    if mode ≠ "b" ∧ mode ≠ "w" ∧ mode ≠ "p" then none
+    let b ← bytes? b
+    let ops ← ops? ops.length ops
+    pure ("ok " ++ showHist (runHist ⟨b, 0⟩ ops))
   | ["dump.cutscan", skip, count, b] => do
     let skip ← optNat? skip; let count ← optNat? count; let b ← bytes? b
     pure (outcome id (cutscan b skip count))
